@@ -550,3 +550,203 @@ class dt___sub__:
                                                           when=lambda self, other: _is_duration(other)).items()},
         **{f"timedelta.{k}": v for k, v in _cases_by_zone(_delegation(lambda other: _td_units(other.us, -1)), _with_other("timedelta"),
                                                            when=lambda self, other: _is_plain_td(other)).items()})
+
+
+# ========================================================================================== conversion (C01)
+from contracts import tz as _tzc
+
+
+def rendering_clauses(result, tz, u, cls):
+    return [("valid_fields", stdlib.valid_dt(result)),
+            ("class_and_requested_zone", result.cls is cls and zones.same_zone(result.tzinfo, tz)),
+            ("same_instant", eq(zones.instant(result), u)),
+            ("fields_are_the_zone_rendering", eq(spec.wall_us(result), zones.render_wall(tz, u))),
+            ("offset_is_the_zone_offset", eq(zones.offset_of(result), zones.off_utc(tz, u)))]
+
+
+def _conv_overflow(tz, u):
+    return Or(Not(stdlib.in_dt_range(u)), Not(stdlib.in_dt_range(zones.render_wall(tz, u))))
+
+
+def _src_dst_cases(build):
+    """source zone kind x target zone kind"""
+    kinds = {"zone": lambda F, h: stdlib.fresh_zone(F, Timezone, h, k=1), "fixed": lambda F, h: fresh_fixed(F, h)}
+    cases = {}
+    for sn, smk in kinds.items():
+        for dn, dmk in kinds.items():
+            cases[f"{sn}_to_{dn}"] = build(smk, dmk, sn, dn)
+    return cases
+
+
+def _astimezone_case(smk, dmk, sn, dn):
+    class case:
+        def applies(self, tz, _s=sn, _d=dn):
+            return (is_aware_dt(self) and is_ptz(tz) and _zone_kind(self) == _s and ("fixed" if zones.is_fixed(tz) else "zone") == _d)
+
+        def args(F):
+            src, sc = smk(F, "src")
+            dst, dc = dmk(F, "dst")
+            o, inv = fresh_pdt(F, src)
+            return dict(self=o, tz=dst), [sc, dc, inv]
+
+        raises = [(OverflowError, "out_of_range", lambda self, tz: _conv_overflow(tz, zones.instant(self)))]
+
+        def result(F, self, tz):
+            o, _ = stdlib.fresh_datetime(F, self.cls, "conv", tzinfo=tz)
+            return o
+
+        def ensures(result, self, tz):
+            u = zones.instant(self)
+            return rendering_clauses(result, tz, u, self.cls) + [("fold", eq(result.fold, zones.fold_of(tz, u)))]
+
+    return case
+
+
+@contract("pendulum.datetime.DateTime.astimezone", props=["C01", "C11"])
+class dt_astimezone:
+    cases = _src_dst_cases(_astimezone_case)
+
+
+def _in_timezone_case(smk, dmk, sn, dn):
+    base = _astimezone_case(smk, dmk, sn, dn)
+
+    class case(base):
+        def applies(self, tz, _s=sn, _d=dn):
+            return base.applies(self, tz)
+
+    return case
+
+
+@contract("pendulum.datetime.DateTime.in_timezone", props=["C01"])
+class dt_in_timezone:
+    cases = _src_dst_cases(_in_timezone_case)
+
+
+@contract("pendulum.datetime.DateTime.int_timestamp", props=["C01"])
+class dt_int_timestamp:
+    def _case(mk):
+        class case:
+            def args(F):
+                tz, zc = mk(F, "tz")
+                o, inv = fresh_pdt(F, tz)
+                return dict(self=o), [zc, inv]
+
+            def value(self):
+                return sym.fdiv(sym.sub(zones.instant(self), EPOCH_W), M)
+
+        return case
+
+    cases = {"zone": _case(lambda F, h: stdlib.fresh_zone(F, Timezone, h, k=1)), "fixed": _case(lambda F, h: fresh_fixed(F, h))}
+
+
+EPOCH_W = spec.wall_us_f(1970, 1, 1, 0, 0, 0, 0)
+
+
+@contract("pendulum.from_timestamp", props=["C01"])
+class from_timestamp:
+    def _case(mk):
+        class case:
+            def applies(timestamp, tz):
+                return sym.is_intlike(timestamp) and is_ptz(tz)
+
+            def args(F):
+                tz, zc = mk(F, "tz")
+                return dict(timestamp=F.int("timestamp"), tz=tz), [zc]
+
+            def requires(timestamp, tz):
+                u = sym.add(EPOCH_W, sym.mul(timestamp, M))
+                return [("representable", And(stdlib.in_dt_range(u), stdlib.in_dt_range(zones.render_wall(tz, u))))]
+
+            def result(F, timestamp, tz):
+                o, _ = stdlib.fresh_datetime(F, DateTime, "fromts", tzinfo=tz)
+                return o
+
+            def ensures(result, timestamp, tz):
+                u = sym.add(EPOCH_W, sym.mul(timestamp, M))
+                return rendering_clauses(result, tz, u, DateTime)
+
+        return case
+
+    cases = {"zone": _case(lambda F, h: stdlib.fresh_zone(F, Timezone, h, k=1)), "fixed": _case(lambda F, h: fresh_fixed(F, h))}
+
+
+import zoneinfo as _zi
+
+
+def _foreign_kinds():
+    def pend(F):
+        return stdlib.fresh_zone(F, Timezone, "src", k=1)
+
+    def zinfo(F):
+        return stdlib.fresh_zone(F, _zi.ZoneInfo, "src", k=1)
+
+    def fixed_native(F):
+        off = F.int("src_off")
+        return Obj(_dt.timezone, off=off), And(gt(off, -D), lt(off, D))
+
+    return {"pendulum_zone": pend, "zoneinfo": zinfo, "datetime_timezone": fixed_native}
+
+
+def _offset_of_any(dt):
+    tz = dt.tzinfo
+    if isinstance(tz, Obj) and tz.cls is _dt.timezone:
+        return tz.off
+    return zones.offset_of(dt)
+
+
+def _instant_any(dt):
+    return sym.sub(spec.wall_us(dt), sym.mul(_offset_of_any(dt), M))
+
+
+def _instance_case(kind, mk):
+    class case:
+        def applies(cls, dt, tz=None, _k=kind):
+            t = dt.f.get("tzinfo") if isinstance(dt, Obj) else None
+            if t is None:
+                return False
+            k = "datetime_timezone" if t.cls is _dt.timezone else ("pendulum_zone" if issubclass(t.cls, Timezone) else ("zoneinfo" if issubclass(t.cls, _zi.ZoneInfo) else None))
+            return k == _k
+
+        def args(F):
+            src, sc = mk(F)
+            dt, dc = stdlib.fresh_datetime(F, _dt.datetime, "dt", tzinfo=src)
+            return dict(cls=DateTime, dt=dt, tz=None), [sc, dc]
+
+        def requires(cls, dt, tz):
+            # the quantifier of C01 ranges over instants: the aware input is the rendering of its instant
+            r = [("valid_input", stdlib.valid_dt(dt))]
+            if dt.tzinfo.cls is not _dt.timezone:
+                r.append(("input_is_a_rendering_with_pep495_fold", And(zones.is_rendering(dt), eq(dt.fold, zones.fold_of(dt.tzinfo, zones.instant(dt))))))
+            return r
+
+        def result(F, cls, dt, tz):
+            o, _ = stdlib.fresh_datetime(F, cls, "inst", tzinfo=None)
+            if dt.tzinfo.cls is _dt.timezone:
+                z_ = stdlib.fixed_zone(FixedTimezone, dt.tzinfo.off, None)
+            elif issubclass(dt.tzinfo.cls, Timezone):
+                z_ = dt.tzinfo
+            else:
+                z_ = Obj(Timezone, key=dt.tzinfo.key, T=dt.tzinfo.T, o=dt.tzinfo.o)
+            return o.with_fields(tzinfo=z_)
+
+        def ensures(result, cls, dt, tz):
+            u = _instant_any(dt)
+            out = [("valid_fields", stdlib.valid_dt(result)), ("class", result.cls is cls),
+                   ("same_instant", eq(zones.instant(result), u)), ("same_fields", eq(spec.wall_us(result), spec.wall_us(dt))),
+                   ("same_offset", eq(zones.offset_of(result), _offset_of_any(dt)))]
+            if dt.tzinfo.cls is _dt.timezone:
+                if zones.is_fixed(result.tzinfo):
+                    out.append(("offset_value", eq(result.tzinfo._offset, dt.tzinfo.off)))
+                else:
+                    # a zero offset named "UTC" becomes pendulum's UTC zone
+                    out.append(("utc_for_zero_offset", And(eq(dt.tzinfo.off, 0), result.tzinfo.key == "UTC")))
+            else:
+                out.append(("same_zone_name", result.tzinfo.key is dt.tzinfo.key))
+            return out
+
+    return case
+
+
+@contract("pendulum.datetime.DateTime.instance", props=["C01", "C05"])
+class dt_instance:
+    cases = {k: _instance_case(k, mk) for k, mk in _foreign_kinds().items()}
